@@ -103,6 +103,7 @@ def main():
             if p.annotation is float:
                 v = conv(v) if isinstance(v, list) else float(v)
             kw[p.name] = v
+        spec._inputs = dict(inputs)
         r, msg = run_one(f, kw)
         print(json.dumps({"result": r, "message": msg, "inputs": {k: repr(v) for k, v in kw.items()}}))
         return
@@ -115,6 +116,7 @@ def main():
             out[name] = {"native": False}
             continue
         rng = random.Random("%s/%s" % (seed, name))
+        spec._rng = rng
         sig = inspect.signature(f)
         gen = opts.get("gen", {})
         passed = skipped = 0
